@@ -15,6 +15,9 @@ use abra_core::check_lsp;
 use std::collections::{BTreeMap, HashMap};
 use std::panic::{AssertUnwindSafe, catch_unwind};
 use vh::*;
+#[path = "../bg8_probes.rs"]
+mod bg8_probes;
+use bg8_probes::{Probe, Want, run_probes};
 
 const POOL: [&str; 6] = ["a", "b", "c", "d", "e", "f"];
 /// names of enums and interfaces (child namespaces), and of enum variants
@@ -291,11 +294,15 @@ impl<'a> Gen<'a> {
                     continue;
                 }
                 if self.rng.chance(1, 4) {
-                    f.types.push(TypeD { name, is_enum: false, members: vec!["im".into()] });
+                    let members = if !clean && self.rng.chance(1, 8) { vec!["im".to_string(), "im".to_string()] } else { vec!["im".to_string()] };
+                    f.types.push(TypeD { name, is_enum: false, members });
                 } else {
                     let skip = self.rng.below(4) as usize; // 3 = keep all three variants
-                    let members: Vec<String> =
+                    let mut members: Vec<String> =
                         VARIANTS.iter().enumerate().filter(|(i, _)| *i != skip).map(|(_, v)| v.to_string()).collect();
+                    if !clean && self.rng.chance(1, 8) {
+                        members.push(members[0].clone()); // a variant declared twice
+                    }
                     f.types.push(TypeD { name, is_enum: true, members });
                 }
             }
@@ -544,6 +551,17 @@ fn ref_clashes(w: &World, k: usize) -> Vec<String> {
             seen.push(d);
         }
     }
+    // a variant / method declared twice inside one enum / interface
+    for t in &w.files[k].types {
+        let mut seen: Vec<&String> = vec![];
+        for m in &t.members {
+            if seen.contains(&m) {
+                out.push(m.clone());
+            } else {
+                seen.push(m);
+            }
+        }
+    }
     out
 }
 
@@ -713,11 +731,21 @@ fn render_stmts(w: &World, k: usize, res: &[Option<RDecl>], ss: &[St], ind: usiz
                 src.push_str(&pad);
                 match &want {
                     Some(RDecl::Variant(m, i, _, _)) => {
-                        src.push_str(&format!("{}(", helper(k, *m, &format!("show_{m}_{i}"))));
-                        let lo = src.len();
-                        src.push_str(&expr);
-                        uses.push((seg, *n_use, lo, src.len()));
-                        src.push_str(")\n");
+                        if pre.is_some() && src.len() % 2 == 0 {
+                            // the namespace-qualified TYPE in an annotation, too
+                            let t = format!("tq{}", src.len());
+                            src.push_str(&format!("let {t}: {}.{ty} = ", pre.clone().unwrap()));
+                            let lo = src.len();
+                            src.push_str(&expr);
+                            uses.push((seg, *n_use, lo, src.len()));
+                            src.push_str(&format!("\n{pad}{}({t})\n", helper(k, *m, &format!("show_{m}_{i}"))));
+                        } else {
+                            src.push_str(&format!("{}(", helper(k, *m, &format!("show_{m}_{i}"))));
+                            let lo = src.len();
+                            src.push_str(&expr);
+                            uses.push((seg, *n_use, lo, src.len()));
+                            src.push_str(")\n");
+                        }
                     }
                     _ => {
                         src.push_str(&format!("let t{} = ", src.len()));
@@ -730,21 +758,29 @@ fn render_stmts(w: &World, k: usize, res: &[Option<RDecl>], ss: &[St], ind: usiz
                 *n_use += 1;
             }
             St::Let(x, id) => src.push_str(&format!("{pad}let {x} = (z: int) -> println(\"L{id}\")\n")),
-            St::Use(x) => {
+            St::Use(_) | St::QUse(_, _) => {
+                let name = match s {
+                    St::Use(x) => x.clone(),
+                    St::QUse(q, x) => format!("{q}.{x}"),
+                    _ => unreachable!(),
+                };
                 src.push_str(&pad);
-                let lo = src.len();
-                src.push_str(x);
-                uses.push((seg, *n_use, lo, src.len()));
+                // one use in three is in VALUE position (`let v = f` / `let v = p.f`, then `v(0)`) when it resolves
+                let resolved = matches!(res.get(*n_use), Some(Some(_)));
+                if resolved && src.len() % 3 == 0 {
+                    let t = format!("vt{}", src.len());
+                    src.push_str(&format!("let {t} = "));
+                    let lo = src.len();
+                    src.push_str(&name);
+                    uses.push((seg, *n_use, lo, src.len()));
+                    src.push_str(&format!("\n{pad}{t}(0)\n"));
+                } else {
+                    let lo = src.len();
+                    src.push_str(&name);
+                    uses.push((seg, *n_use, lo, src.len()));
+                    src.push_str("(0)\n");
+                }
                 *n_use += 1;
-                src.push_str("(0)\n");
-            }
-            St::QUse(q, x) => {
-                src.push_str(&pad);
-                let lo = src.len();
-                src.push_str(&format!("{q}.{x}"));
-                uses.push((seg, *n_use, lo, src.len()));
-                *n_use += 1;
-                src.push_str("(0)\n");
             }
             St::MArms(id, arms) => {
                 // the match sits in a helper lambda that is called once per arm, so every arm runs
@@ -848,7 +884,11 @@ fn render(w: &World) -> Rendered {
                     src.push_str(&format!("  | {v}\n"));
                 }
             } else {
-                src.push_str(&format!("interface {} {{\n  fn {}(self) -> int\n}}\n", t.name, t.members[0]));
+                src.push_str(&format!("interface {} {{\n", t.name));
+                for m in &t.members {
+                    src.push_str(&format!("  fn {m}(self) -> int\n"));
+                }
+                src.push_str("}\n");
             }
         }
         src.push_str(&format!("fn probe{k}(z: int) {{\n  println(\"#{k}.p\")\n"));
@@ -1119,6 +1159,97 @@ fn strip_builtin_uses(ss: &mut Vec<St>, res: &[Option<RDecl>], idx: &mut usize) 
     }
 }
 
+
+macro_rules! w {
+    ($f:literal) => {
+        include_str!(concat!("../../probes_bg8/", $f))
+    };
+}
+
+fn fixed_probes() -> Vec<Probe> {
+    vec![
+        // a namespace-qualified function / constructor used as a VALUE
+        Probe { name: "qualified-names-as-values", main: w!("A_08.abra"), files: &[("helper_ns.abra", w!("helper_ns.abra"))], want: Want::Out("42\n8\nhi\n2\n") },
+        // a namespace-qualified TYPE in annotations: found / not found / qualifier is not a namespace
+        Probe { name: "qualified-type-annotation", main: w!("B_14.abra"), files: &[("bmod.abra", w!("bmod.abra"))], want: Want::Out("4\n3\n") },
+        Probe { name: "qualified-type-annotation-unresolved", main: w!("B_14b.abra"), files: &[("bmod.abra", w!("bmod.abra"))], want: Want::Rejected(&["Could not resolve identifier", "Must be a namespace"]) },
+        Probe { name: "member-access-through-a-function", main: w!("B_13.abra"), files: &[], want: Want::Rejected(&["Could not resolve identifier"]) },
+        // clashes with builtin types, intrinsics, #host functions; duplicate members of one interface / enum / struct / parameter list
+        Probe {
+            name: "clash-with-builtins-and-duplicate-members",
+            main: w!("B_40.abra"),
+            files: &[],
+            want: Want::Rejected(&["`foo` was declared more than once", "`Aa` was declared more than once", "`Cc` was declared more than once", "`x` was declared more than once", "`a` was declared more than once", "`array_push` was declared more than once", "`array` was declared more than once", "`print_string` was declared more than once"]),
+        },
+        Probe {
+            name: "duplicate-member-function-per-receiver-type",
+            main: w!("B_21.abra"),
+            files: &[],
+            want: Want::Rejected(&["`dup` was declared for `float` more than once", "`dup` was declared for `bool` more than once", "`dup` was declared for `string` more than once", "`dup` was declared for `void` more than once", "`dup` was declared for `Pt` more than once", "`dup` was declared for `tuple(#2 elems)` more than once"]),
+        },
+        Probe { name: "extend-a-function-name", main: w!("B_01.abra"), files: &[], want: Want::Rejected(&["Must extend a type"]) },
+        Probe { name: "implement-for-a-function-name", main: w!("B_43.abra"), files: &[], want: Want::Rejected(&["Must extend a type"]) },
+        Probe { name: "extend-implement-for-non-types", main: w!("B_49.abra"), files: &[], want: Want::Rejected(&["Must extend a type", "Could not resolve identifier"]) },
+        // D101: a type parameter declared twice is a clash
+        Probe { name: "D101-duplicate-type-parameter", main: w!("B_47.abra"), files: &[], want: Want::Rejected(&["declared more than once"]) },
+    ]
+}
+
+/// `OsFileProvider`: a module is looked up in the main file's directory, then in the import
+/// directories, then in the standard-modules directory; a module that exists nowhere is a diagnostic
+fn os_provider_probe(ctx: &mut Ctx) {
+    use abra_core::vm::Runtime;
+    use abra_core::{OsFileProvider, compile_bytecode};
+    let root = ctx.out_dir.join("os17");
+    let _ = std::fs::remove_dir_all(&root);
+    let files: [(&str, &str); 10] = [
+        ("main.abra", w!("os17/main.abra")),
+        ("missing.abra", w!("os17/missing.abra")),
+        ("local_mod.abra", w!("os17/local_mod.abra")),
+        ("imp/local_mod.abra", w!("os17/imp/local_mod.abra")),
+        ("imp/imp_mod.abra", w!("os17/imp/imp_mod.abra")),
+        ("imp/both.abra", w!("os17/imp/both.abra")),
+        ("imp/sub/deep.abra", w!("os17/imp/sub/deep.abra")),
+        ("std/imp_mod.abra", w!("os17/std/imp_mod.abra")),
+        ("std/std_mod.abra", w!("os17/std/std_mod.abra")),
+        ("std/both.abra", w!("os17/std/both.abra")),
+    ];
+    for (rel, text) in files {
+        let path = root.join(rel);
+        std::fs::create_dir_all(path.parent().unwrap()).unwrap();
+        std::fs::write(&path, text).unwrap();
+    }
+    let run = move |main: &str| -> String {
+        let root = root.clone();
+        let main = main.to_string();
+        let r = std::panic::catch_unwind(std::panic::AssertUnwindSafe(move || {
+            let provider = OsFileProvider::new(root.clone(), root.join("std"), vec![root.join("imp")]);
+            match compile_bytecode(&main, provider) {
+                Err(e) => format!("rejected: {}", e.to_string().lines().filter(|l| l.starts_with("error")).collect::<Vec<_>>().join(" | ")),
+                Ok(program) => {
+                    let mut rt = Runtime::new(program);
+                    let mut out = String::new();
+                    let (outcome, _, _) = drive(&mut rt, &RunOpts::default(), &mut out);
+                    format!("{}: {}", outcome.tag(), out.replace('\n', "\\n"))
+                }
+            }
+        }));
+        r.unwrap_or_else(|p| format!("CRASH: {}", panic_msg(p)))
+    };
+    let got = std::thread::Builder::new().stack_size(256 << 20).spawn(move || (run("main.abra"), run("missing.abra"))).unwrap().join().unwrap();
+    let want_main = "done: local_mod from main dir\\nimp_mod from import dir\\nstd_mod from std dir\\nboth from import dir\\nsub/deep from import dir\\n";
+    let ok_main = got.0 == want_main;
+    ctx.count(&format!("probe:os-provider-search-order:{}", if ok_main { "ok" } else { "FAIL" }));
+    if !ok_main {
+        ctx.spec_fail(format!("probe os-provider-search-order (main dir, then -i dirs, then standard modules): got `{}`, want `{want_main}`", got.0));
+    }
+    let ok_missing = got.1.starts_with("rejected:");
+    ctx.count(&format!("probe:os-provider-missing-module:{}", if ok_missing { "ok" } else { "FAIL" }));
+    if !ok_missing {
+        ctx.spec_fail(format!("probe os-provider-missing-module: `use no_such_module` must be a diagnostic, got `{}`", got.1));
+    }
+}
+
 fn main() {
     let mut ctx = Ctx::from_env("C21");
     let n_prog = if ctx.quick() { 700 } else { 12000 };
@@ -1240,5 +1371,7 @@ fn main() {
         }
         ctx.case(request(w), imp);
     }
+    run_probes(&mut ctx, &fixed_probes());
+    os_provider_probe(&mut ctx);
     ctx.finish();
 }
